@@ -2,6 +2,7 @@ package sim
 
 import (
 	"bytes"
+	"strconv"
 	"sync"
 	"time"
 	"unsafe"
@@ -20,6 +21,7 @@ type SimPool struct {
 	mu                   sync.Mutex
 	free                 map[string][]interface{}
 	Gets, Puts, Reissued int
+	DynGets, DynReissued int
 }
 
 func NewSimPool(policy string, seed uint64) *SimPool {
@@ -109,6 +111,80 @@ func (k *Kernel) PoolPut(kind string, v interface{}) bool {
 			*(*float64)(unsafe.Pointer(x)) = -6.02214076e23
 		case *value.Datetime:
 			*(*time.Time)(unsafe.Pointer(x)) = poisonTime
+		}
+		return true
+	}
+	if len(p.free[kind]) < 4096 {
+		p.free[kind] = append(p.free[kind], v)
+	}
+	return true
+}
+
+// DynPoolGet / DynPoolPut serve every sync.Pool of lib/query and lib/value that
+// the build turned into a vhook.SPool (tools/autoyield -simpool): the join
+// record pools, and whatever pool a change adds. The pool instance is the kind.
+// handled == false leaves the call to the real sync.Pool (policy "real").
+func (k *Kernel) DynPoolGet(id uint64) (interface{}, bool) {
+	p := k.pool
+	if p == nil || p.policy == "real" {
+		return nil, false
+	}
+	kind := "dyn/" + strconv.FormatUint(id, 10)
+	p.mu.Lock()
+	defer p.mu.Unlock()
+	p.Gets++
+	p.DynGets++
+	fl := p.free[kind]
+	n := len(fl)
+	if n == 0 {
+		return nil, true
+	}
+	switch p.policy {
+	case "lifo":
+		v := fl[n-1]
+		p.free[kind] = fl[:n-1]
+		p.Reissued++
+		p.DynReissued++
+		return v, true
+	case "fifo":
+		v := fl[0]
+		p.free[kind] = fl[1:]
+		p.Reissued++
+		p.DynReissued++
+		return v, true
+	case "random":
+		if p.rng.Bool(0.7) {
+			i := p.rng.Intn(n)
+			v := fl[i]
+			fl[i] = fl[n-1]
+			p.free[kind] = fl[:n-1]
+			p.Reissued++
+			p.DynReissued++
+			return v, true
+		}
+	}
+	return nil, true
+}
+
+var poisonCell = query.NewCell(value.NewString("\x00POISON\x00"))
+
+func (k *Kernel) DynPoolPut(id uint64, v interface{}) bool {
+	p := k.pool
+	if p == nil || p.policy == "real" {
+		return false
+	}
+	kind := "dyn/" + strconv.FormatUint(id, 10)
+	p.mu.Lock()
+	defer p.mu.Unlock()
+	p.Puts++
+	switch p.policy {
+	case "fresh":
+		return true
+	case "poison":
+		if r, ok := v.(query.Record); ok {
+			for i := range r {
+				r[i] = poisonCell
+			}
 		}
 		return true
 	}
